@@ -19,7 +19,7 @@ if [ "$1" = "-e" ]; then
   sed -i "$expr" "$WT/$file"
   [ "$before" = "$(md5sum "$WT/$file")" ] && { echo "mutrun: sed expression changed nothing"; exit 2; }
 else
-  git -C "$WT" apply "$1" || { echo "mutrun: patch does not apply"; exit 2; }
+  P=$(readlink -f "$1"); git -C "$WT" apply "$P" || { echo "mutrun: patch does not apply"; exit 2; }
   shift
 fi
 git -C "$WT" diff --stat | tail -1
